@@ -9,7 +9,7 @@ import ast
 from . import terms as tm
 from .terms import (T, TRUE, FALSE, BOOL, INT, STR, VAL, VSEQ, AIV, AII, AIIV, And, Or, Not, Implies,
                     Ite, Eq, Add, Sub, Lt, Le, Gt, Ge, App, Is, Acc, VNONE, VUNSET, VBool, VInt, VStr,
-                    VTuple, VList, VRef, VCls, SeqLen, SeqNth, seq_of, seq_literal_items, StrLen,
+                    VTuple, VList, VRef, VCls, SeqLen, SeqNth, SeqConcat, SeqUnit, seq_of, seq_literal_items, StrLen,
                     Select, Store, const, bvar, intlit, strlit, boollit, fresh_name, Forall, Exists)
 from .symexec import State, Unsupported, SpecError, intlike, as_int, pure_truthy, py_eq
 from .heap import HeapExecutor, cls_of, AI, FIELD_TYPES
@@ -690,6 +690,10 @@ class HeapOps(HeapExecutor):
         assigned = sorted(self.assigned_names(s))
         # 1. invariant holds initially (i = 0)
         env0 = {'_i': VInt(intlit(0)), '_it': it}
+        accs = [nm_ for nm_ in assigned if nm_ in self.local_accumulators()]
+        # `_acc` in the sidecar stands for THE local result list the loop appends to (robust against renaming it)
+        if len(accs) == 1 and accs[0] in st.env:
+            env0['_acc'] = st.env[accs[0]]
         g0, extra0 = self.eval_spec(inv_src, st, env_extra=dict(st.env, **env0))
         st = st.copy()
         st.obls.append(('inv[loop%d].init' % ordn, list(st.pc) + list(extra0), g0, inv_src))
@@ -699,7 +703,11 @@ class HeapOps(HeapExecutor):
         for name in assigned:
             h.env[name] = const(fresh_name('hv_' + name), VAL)
             h.kcls.pop(h.env[name], None)
+            if name in self.local_accumulators():
+                h._add(Is('VList', h.env[name]))
         envi = {'_i': VInt(i), '_it': it}
+        if len(accs) == 1:
+            envi['_acc'] = h.env[accs[0]]
         gi, extrai = self.eval_spec(inv_src, h, env_extra=dict(h.env, **envi))
         h = h.assume(And(gi, *extrai))
         out = []
@@ -725,6 +733,8 @@ class HeapOps(HeapExecutor):
                         r = r.copy()
                         r.status = 'run'
                         envn = {'_i': VInt(Add(i, intlit(1))), '_it': it}
+                        if len(accs) == 1:
+                            envn['_acc'] = r.env[accs[0]]
                         gn, extran = self.eval_spec(inv_src, r, env_extra=dict(r.env, **envn))
                         r.obls.append(('inv[loop%d].preserved' % ordn, list(r.pc) + list(extran), gn, inv_src))
                         # path ends here (cut): keep only its obligations
@@ -979,14 +989,86 @@ class HeapOps(HeapExecutor):
             raise SpecError('measure %s is not a total expression' % src)
         return outs[0][1]
 
+    def local_accumulators(self, fi=None):
+        """Names X of the current function that are a *local result list*: bound exactly once, by `X = []`, and
+        otherwise only used as `X.append(e)` (an expression statement), as the whole test of an `if`, or as the
+        whole operand of `return`.  Such a list cannot be aliased, so it is modelled as a list value bound to the
+        name (append rebinds the name) and appending to it is not a write to the heap."""
+        fi = fi if fi is not None else (self.cur_func[-1] if self.cur_func else None)
+        if fi is None:
+            return frozenset()
+        cache = self.__dict__.setdefault('_accu_cache', {})
+        if fi.fid in cache:
+            return cache[fi.fid]
+        binds, ok_uses, all_uses = {}, {}, {}
+        for node in ast.walk(fi.node):
+            if isinstance(node, ast.Assign) and len(node.targets) == 1 and isinstance(node.targets[0], ast.Name):
+                nm = node.targets[0].id
+                binds.setdefault(nm, []).append(isinstance(node.value, ast.List) and not node.value.elts)
+            elif isinstance(node, (ast.AugAssign, ast.AnnAssign, ast.For, ast.comprehension, ast.With,
+                                   ast.NamedExpr, ast.ExceptHandler, ast.Global, ast.Nonlocal)):
+                for sub in ast.walk(node.target if hasattr(node, 'target') else node):
+                    if isinstance(sub, ast.Name) and isinstance(sub.ctx, ast.Store):
+                        binds.setdefault(sub.id, []).append(False)
+                for nm in getattr(node, 'names', []) or []:
+                    if isinstance(nm, str):
+                        binds.setdefault(nm, []).append(False)
+            if isinstance(node, ast.Expr) and isinstance(node.value, ast.Call) \
+                    and isinstance(node.value.func, ast.Attribute) and node.value.func.attr == 'append' \
+                    and isinstance(node.value.func.value, ast.Name) and len(node.value.args) == 1 \
+                    and not node.value.keywords:
+                ok_uses[node.value.func.value.id] = ok_uses.get(node.value.func.value.id, 0) + 1
+            if isinstance(node, ast.If) and isinstance(node.test, ast.Name):
+                ok_uses[node.test.id] = ok_uses.get(node.test.id, 0) + 1
+            if isinstance(node, ast.Return) and isinstance(node.value, ast.Name):
+                ok_uses[node.value.id] = ok_uses.get(node.value.id, 0) + 1
+            if isinstance(node, ast.Name) and isinstance(node.ctx, ast.Load):
+                all_uses[node.id] = all_uses.get(node.id, 0) + 1
+        params = set(a.arg for a in ast.walk(fi.node.args) if isinstance(a, ast.arg))
+        nested = [n for n in ast.walk(fi.node) if n is not fi.node and
+                  isinstance(n, (ast.FunctionDef, ast.Lambda, ast.AsyncFunctionDef))]
+        out = set()
+        for nm, bs in binds.items():
+            if bs == [True] and nm not in params and not nested and all_uses.get(nm, 0) == ok_uses.get(nm, 0):
+                out.add(nm)
+        cache[fi.fid] = frozenset(out)
+        return cache[fi.fid]
+
+    def _accu_append(self, s):
+        """the name X if statement `s` is `X.append(e)` on a local result list of the current function"""
+        if isinstance(s, ast.Expr) and isinstance(s.value, ast.Call) and isinstance(s.value.func, ast.Attribute) \
+                and s.value.func.attr == 'append' and isinstance(s.value.func.value, ast.Name) \
+                and len(s.value.args) == 1 and not s.value.keywords \
+                and s.value.func.value.id in self.local_accumulators():
+            return s.value.func.value.id
+        return None
+
+    def st_Expr(self, s, st):
+        nm = self._accu_append(s)
+        if nm is not None and nm in st.env:
+            out = []
+            for o, v in self.ev(s.value.args[0], st):
+                if o.running:
+                    o = o.copy()
+                    o.env = dict(o.env)
+                    o.env[nm] = VList(SeqConcat(Acc('lv', o.env[nm]), SeqUnit(v)))
+                out.append(o)
+            return out
+        return super(HeapOps, self).st_Expr(s, st)
+
     def writes_heap(self, stmts):
+        accu_calls = set()
+        for st_ in stmts:
+            for node in ast.walk(st_):
+                if self._accu_append(node) is not None:
+                    accu_calls.add(id(node.value))
         for st_ in stmts:
             for node in ast.walk(st_):
                 if isinstance(node, (ast.Attribute, ast.Subscript)) and isinstance(node.ctx, (ast.Store, ast.Del)):
                     return True
                 if isinstance(node, ast.Call) and isinstance(node.func, ast.Attribute) and \
                         node.func.attr in ('append', 'insert', 'remove', 'extend', 'pop', 'sort', 'clear',
-                                           'add', 'setdefault', 'update'):
+                                           'add', 'setdefault', 'update') and id(node) not in accu_calls:
                     return True
         return False
 
@@ -996,4 +1078,8 @@ class HeapOps(HeapExecutor):
             if isinstance(node, ast.Name) and isinstance(node.ctx, ast.Store) \
                     and not node.id.startswith('_forelse_brk_'):      # set only right before leaving the loop
                 names.add(node.id)
+        for node in ast.walk(loop):
+            nm = self._accu_append(node)
+            if nm is not None:
+                names.add(nm)
         return names
